@@ -72,6 +72,8 @@ def scan(book):
                         text[ma] = '{' + str(v.text) + '}'
                 elif isinstance(v, (int, float)) and not isinstance(v, bool):
                     numbers[a] = v
+    # openpyxl shows the members of an array formula (all but the first cell) with their stored results
+    numbers = {a: v for a, v in numbers.items() if a not in text}
     return {'formulas': formulas, 'text': text, 'numbers': numbers,
             'iterative': bool(book_.calculation is not None and book_.calculation.iterate),
             'cells_by_sheet': by_sheet}
